@@ -61,10 +61,27 @@ def run_shard(target: str, phase: str, cases: list, ctx: dict) -> dict:
         out = fn(phase, cases, ctx)
     except CaseTimeout:
         raise
-    except Exception:
-        raise HarnessError(
-            f'worker function {target} failed on phase {phase}:\n{traceback.format_exc()}'
-        )
+    except Exception as first:
+        # An exception escaped the check's own guards.  If it comes out of the furax sources it is the library's behaviour
+        # on some case: re-run the shard case by case so that the offending case becomes a violation (and every other case
+        # is still executed); anything else is a failure of the machinery.
+        from .probe import from_library
+
+        if not from_library(first):
+            raise HarnessError(f'worker function {target} failed on phase {phase}:\n{traceback.format_exc()}')
+        out = {}
+        for case in cases:
+            try:
+                part = fn(phase, [case], ctx)
+            except CaseTimeout:
+                raise
+            except Exception as e:  # noqa: BLE001
+                if not from_library(e):
+                    raise HarnessError(f'worker function {target} failed on phase {phase}:\n{traceback.format_exc()}')
+                tb = ''.join(traceback.format_exception(type(e), e, e.__traceback__)[-6:])
+                part = {'n': 1, 'violations': [{'kind': 'library-raises-unguarded', 'case': case, 'detail': f'{type(e).__name__}: {e}\n{tb}'}]}
+            part.setdefault('n', 1)
+            out = merge(out, part)
     out.setdefault('n', len(cases))
     out['cpu_s'] = time.time() - t0
     return out
